@@ -187,6 +187,22 @@ pub fn plan(s: &Scenario, b: &Built) -> Result<PlanResult, String> {
     catch_unwind(AssertUnwindSafe(|| p.plan(&b.from, &to_na(&b.land), steps, &to_na(&b.park)))).map_err(|e| panic_message(&e))
 }
 
+/// The same request with the other unit quaternion (q and -q are one rotation) on every second pose after the landing
+/// pose: land as given, stroke poses 0, 2, .. negated, the parking pose negated when it follows an un-negated pose.
+pub fn plan_negated(s: &Scenario, b: &Built) -> Result<PlanResult, String> {
+    let p = planner(s, &b.robot);
+    let neg = |i: &Iso| {
+        let mut x = to_na(i);
+        x.rotation = nalgebra::UnitQuaternion::new_unchecked(-x.rotation.into_inner());
+        x
+    };
+    let steps: Vec<Pose> = b.steps.iter().enumerate().map(|(k, st)| if k % 2 == 0 { neg(st) } else { to_na(st) }).collect();
+    let park = if b.steps.len() % 2 == 0 { neg(&b.park) } else { to_na(&b.park) };
+    catch_unwind(AssertUnwindSafe(|| p.plan(&b.from, &to_na(&b.land), steps, &park))).map_err(|e| panic_message(&e))
+}
+
+static THOROUGH: std::sync::atomic::AtomicBool = std::sync::atomic::AtomicBool::new(false);
+
 fn has(f: &PathFlags, bit: PathFlags) -> bool {
     f.contains(bit)
 }
@@ -299,6 +315,18 @@ pub fn judge_path(s: &Scenario, b: &Built, path: &[AnnotatedJoints], gap_closing
                 if !has(&path[i].flags, PathFlags::LIN_INTERP) {
                     continue;
                 }
+                // orientation: between the two original orientations (on the shortest turn from one to the other)
+                {
+                    let (ra, rz, ri) = (&wanted[k].1.r, &wanted[k + 1].1.r, cell.tcp(&path[i].joints).r);
+                    let (whole, first, second) = (rot_angle(ra, rz), rot_angle(ra, &ri), rot_angle(&ri, rz));
+                    if whole < 3.0 && !(first + second <= whole + 5e-6) {
+                        fails.push((
+                            "C12/interpolated-waypoint-orientation-off-segment".to_string(),
+                            format!("waypoint {i} is turned {first} rad from original pose {k} and {second} rad from pose {}, which are {whole} rad apart", k + 1),
+                        ));
+                        break;
+                    }
+                }
                 let p = cell.tcp(&path[i].joints).t;
                 let t = if len2 > 0.0 { dot(sub(p, a), seg) / len2 } else { 0.0 };
                 let foot = add(a, scale(seg, t));
@@ -362,6 +390,28 @@ pub fn eval_scenario(s: &Scenario, with_recorder: bool) -> (Vec<(String, String)
     } else {
         None
     };
+    // the same request with the quaternion of every second pose negated (the same rotations): same outcome, and a path
+    // that satisfies the same clauses. Always where bisection can occur (tight cost limit with recursion allowed), on
+    // every scenario in the thorough tier
+    if (s.cost < 2 && s.depth > 0) || THOROUGH.load(std::sync::atomic::Ordering::Relaxed) {
+        match (&res, plan_negated(s, &b)) {
+            (_, Err(m)) => fails.push(("C12/panic/negated-quaternions".to_string(), m)),
+            (Ok(Ok(_)), Ok(Err(e))) => fails.push((
+                "C12/outcome-depends-on-quaternion-sign".to_string(),
+                format!("planning succeeds, but fails with {e} when every second pose carries the negated quaternion of the same rotation"),
+            )),
+            (Ok(Err(e)), Ok(Ok(_))) => fails.push((
+                "C12/outcome-depends-on-quaternion-sign".to_string(),
+                format!("planning fails with {e}, but succeeds when every second pose carries the negated quaternion of the same rotation"),
+            )),
+            (_, Ok(Ok(path))) => {
+                for (k, d) in judge_path(s, &b, &path, if s.cost == 2 { Some(false) } else { None }) {
+                    fails.push((format!("{k}/negated-quaternions"), d));
+                }
+            }
+            _ => {}
+        }
+    }
     match res {
         Err(m) => {
             fails.push(("C12/panic".to_string(), m));
@@ -532,6 +582,7 @@ pub fn debug_strategies() {
 
 pub fn run(ctx: &Ctx) -> Report {
     let thorough = !ctx.quick();
+    THOROUGH.store(thorough, std::sync::atomic::Ordering::Relaxed);
     if std::env::var("VERIF_DEBUG").is_ok() {
         debug_strategies();
     }
